@@ -76,6 +76,13 @@ Theorem C12_lock_fields_monotone : forall cmds c k, lock_mono_ok (run cmds) (fst
 Proof. exact lock_fields_monotone_seq. Qed.
 Print Assumptions C12_lock_fields_monotone.
 
+Theorem C12_status_rolled_back_unlocked : forall cmds k s caller cur rine rp a,
+  snd (step (run cmds) (CheckTxnStatus k s caller cur rine rp)) = RStatus 0 0 a ->
+  a = ATTLExpireRollback \/ a = ATTLExpirePessimisticRollback ->
+  own_lock (get_ks (fst (step (run cmds) (CheckTxnStatus k s caller cur rine rp))) k) s = None.
+Proof. exact status_rolled_back_unlocked. Qed.
+Print Assumptions C12_status_rolled_back_unlocked.
+
 Theorem C12_commit_below_min_commit_refused : forall st keys s c, commit_must_be_refused st keys s c = true ->
   exists e, step st (Commit keys s c) = (st, RErr (Some e)).
 Proof. exact commit_below_min_commit_refused. Qed.
